@@ -363,6 +363,19 @@ func isReturnedDirectly(ev ssa.Value) bool {
 // errorEdgeReturns: some If compares ev with nil and every path from the non-nil edge returns a
 // non-nil last result.
 func errorEdgeReturns(fn *ssa.Function, ev ssa.Value) (bool, string) {
+	// "return f(...)": the error is handed to the caller unchanged
+	if refs := realRefs(ev); len(refs) > 0 {
+		all := true
+		for _, rf := range refs {
+			ret, ok := rf.(*ssa.Return)
+			if !ok || len(ret.Results) == 0 || ret.Results[len(ret.Results)-1] != ev {
+				all = false
+			}
+		}
+		if all {
+			return true, "the error is returned to the caller unchanged"
+		}
+	}
 	// SingleResult.Err() is a getter: any Err() call on the same receiver stands for the same error.
 	same := func(v ssa.Value) bool {
 		v = stripIface(loadSource(v))
